@@ -2,7 +2,7 @@
    vm_compute: one JSON case in, one JSON observation out *)
 From Coq Require Import List NArith ZArith Bool.
 From D2P Require Import Str Err Json Xml TableTypes Tables Fmt NumFmt Bullets Merge
-     Collector Walk Iter Output Codec Paths Package Content Lifecycle Save.
+     Collector Walk Iter Output Codec Paths Package Content Lifecycle Save Utilities.
 Import ListNotations.
 Open Scope N_scope.
 
@@ -162,6 +162,20 @@ Definition run_case (c : jt) : jt :=
       | Some d, Some t => JL [jstr (file_path d t); jstr (rels_path (file_path d t));
                               jstr (path_name t); jstr (dir_of_member t)]
       | _, _ => bad_case
+      end
+  | JL [JN 10; arch] =>
+      match dec_archive arch with
+      | Some a =>
+          JL [enc_res (l <- get_links a ;;
+                       Ok (jlist (fun ht => JL [jstr (fst ht); jstr (snd ht)]) l));
+              enc_res (l <- get_headings a ;; Ok (jlist (jlist jstr) l))]
+      | None => bad_case
+      end
+  | JL [JN 11; s] =>
+      match get_str s with
+      | Some s' => JL [jopt (fun ht => JL [jstr (fst ht); jstr (snd ht)]) (link_match s');
+                       jbool (heading_match s')]
+      | None => bad_case
       end
   | JL [JN 4; nested] =>
       match dec_rose_str nested with
